@@ -357,8 +357,9 @@ func (p *Parser) parseComparisonExpression() (ast.Expression, error) {
 			}, nil
 		}
 
-		// Parse the right side of the expression
-		right, err := p.parsePrimaryExpression()
+		// Parse the right side of the expression at the next tighter precedence level
+		// (string concatenation / arithmetic), like the left side: a = b + 1, a < b * 2
+		right, err := p.parseStringConcatExpression()
 		if err != nil {
 			return nil, err
 		}
